@@ -75,6 +75,18 @@ def wrapC (bits : Nat) (signed : Bool) (v : Int) : Int :=
 def cRange (bits : Nat) (unsigned : Bool) : Int × Int :=
   if unsigned then (0, 2 ^ bits - 1) else (-(2 ^ (bits - 1)), 2 ^ (bits - 1) - 1)
 
+/-- integer part of `ValueFlow::castValue(value, sign, bit)` (lib/vf_common.cpp): for `bit < 64` the value is masked to
+    `bit` bits and, for `sign == SIGNED` only, sign-extended; `bit ≥ 64` leaves it alone.  `setTokenValueCast` calls it with
+    `char_bit / short_bit / int_bit / long_bit / long_long_bit` for a cast to CHAR / SHORT / INT / LONG / LONGLONG and the sign
+    of the cast's `ValueType` (a cast to plain `char` carries no sign: `signed = false`). -/
+def castValue (v : Int) (signed : Bool) (bit : Nat) : Int :=
+  if bit < 64 then
+    let mask : Nat := 2 ^ bit - 1
+    let x : Nat := toU64 v &&& mask
+    let x : Nat := if signed && (x &&& 2 ^ (bit - 1)) != 0 then x ||| (2 ^ 64 - 1 - mask) else x
+    toI64 x
+  else v
+
 /-! ## Folding of the unary operators `!  ~  -` on a known operand value (`setTokenValue`, lib/vf_settokenvalue.cpp)
 
 Copied branch by branch.  The operand is described as the code sees it: its `ValueType` (sign, type, not a pointer) and the
